@@ -732,3 +732,57 @@ Proof.
   intros sm a res items t T x Hp Hn HT Hv Hin. rewrite split_literal_elements_lemma in Hv.
   rewrite forallb_forall in Hp, Hn, Hv. apply (literal_valid_lemma sm a res x t T); auto.
 Qed.
+
+(* ------------------------------------------------------------ dimensions of accepted references *)
+
+(* the type is not, and has no component that is, the untyped map *)
+Fixpoint no_umap (t : ty) : bool :=
+  match t with
+  | TB KMap => false
+  | TArr e _ => no_umap e
+  | TMap e => no_umap e
+  | _ => true
+  end.
+
+Lemma adim_arr e d : adim (TArr e d) = adim e + S d.
+Proof. unfold adim. cbn [tid]. destruct (tid e) as [[n x] m]. reflexivity. Qed.
+Lemma mdim_arr e d : mdim (TArr e d) = mdim e.
+Proof. unfold mdim. cbn [tid]. destruct (tid e) as [[n x] m]. reflexivity. Qed.
+Lemma adim_map e : adim (TMap e) = O.
+Proof. unfold adim. cbn [tid]. destruct (tid e) as [[n x] m]. reflexivity. Qed.
+Lemma mdim_map e : mdim (TMap e) = S (adim e).
+Proof. unfold mdim, adim. cbn [tid]. destruct (tid e) as [[n x] m]. reflexivity. Qed.
+
+(* Without the struct->typed-map coercion and away from the untyped map,
+   IsAssignableFrom never changes an array depth: neither the outer one nor
+   the one of a typed map's values (map<int[]> is not assignable from map<int>
+   or map<int[][]>), and never trades an array for a typed map. *)
+Lemma assignable_same_dims_lemma : forall T O,
+  no_umap T = true -> assignable_g false T O = true -> adim T = adim O /\ mdim T = mdim O.
+Proof.
+  induction T as [k|n|e d IH|e IH|n ms IH] using ty_ind'; intros O Hn Ha.
+  - destruct O as [k'|n'|e' d'|e'|n' ms']; cbn [assignable_g] in Ha.
+    + split; reflexivity.
+    + split; reflexivity.
+    + discriminate.
+    + destruct k; cbn in Hn, Ha; discriminate.
+    + destruct k; cbn in Hn, Ha; discriminate.
+  - destruct O as [k'|n'|e' d'|e'|n' ms']; cbn [assignable_g] in Ha; try discriminate; split; reflexivity.
+  - destruct O as [k'|n'|e' d'|e'|n' ms']; cbn [assignable_g] in Ha; try discriminate.
+    apply andb_true_iff in Ha. destruct Ha as [Ha Hd]. apply Nat.eqb_eq in Hd. subst d'.
+    cbn [no_umap] in Hn. destruct (IH e' Hn Ha) as [H1 H2].
+    rewrite !adim_arr, !mdim_arr. split; congruence.
+  - destruct O as [k'|n'|e' d'|e'|n' ms']; cbn [assignable_g] in Ha; try discriminate.
+    cbn [no_umap] in Hn. destruct (IH e' Hn Ha) as [H1 H2].
+    rewrite !adim_map, !mdim_map. split; congruence.
+  - destruct O as [k'|n'|e' d'|e'|n' ms']; try (cbn [assignable_g] in Ha; discriminate).
+    split; reflexivity.
+Qed.
+
+Theorem accepted_ref_same_dims_lemma : forall a t tn T Tn,
+  valid_ref false a t (Some tn) = true -> ty_of a t = Some T -> ty_of a tn = Some Tn ->
+  no_umap T = true -> adim T = adim Tn /\ mdim T = mdim Tn.
+Proof.
+  intros a t tn T Tn Hv HT HTn Hn. apply assignable_same_dims_lemma; [exact Hn|].
+  exact (valid_ref_assignable false a t tn T Tn Hv HT HTn).
+Qed.
